@@ -27,6 +27,9 @@ static bool gen_c20(uint64_t seed, const std::string &tier, uint64_t i, Plan &p)
   p = Plan(); p.property = "C20"; p.seed = mix64(mix64(seed, 0xC20), i);
   Rng r(p.seed);
   p.knobs.set("oracles", oracle_list({"c20"})).set("nojudge", true).set("split_p", r.pick(std::vector<double>{0.0, 0.5, 0.95})).set("stick", r.pick(std::vector<double>{0.3, 0.9})).set("max_steps", 400000);
+  // the clock is input too (dates are formatted into Received, Date, From_ and bounce lines): now and then a time from the far
+  // ends of a 32-bit time_t, before the calendar code's internal epoch (2000-03-01) or on a leap day
+  { Rng rc(mix64(p.seed, 0xC10C)); if (rc.chance(0.25)) p.knobs.set("start_clock", (long long)(rc.pick(std::vector<int64_t>{0, 68169600, 946684799, 951782400, 951868799, 951868800, 1078012800, 2147400000, (int64_t)rc.below(951868800), (int64_t)rc.below(2147000000)}) + (int64_t)rc.below(86400))); }
   int surface = (int)(i % 12);
   switch (surface) {
     case 0: {   // SMTP byte streams
